@@ -196,6 +196,17 @@ class RechunkCopy(CopyOpSpec):
         ops = [r.op for r in getattr(c, "gb_calls", [])]
         yield "one-copy-op-not-fusable", len(ops) == 1 and ops[0].fusable_with_predecessors is False and ops[0].fusable_with_successors is False
 
+    def replay(self, cfg, model, ob):
+        nd = cfg["ndim"]
+        m = dict(model)
+        copy = tuple(max(1, int(m.get(f"copy{i}", m.get(f"x_n{i}", 1)))) for i in range(nd))
+        tgt = tuple(max(1, int(m.get(f"tgt{i}", 1))) for i in range(nd))
+        lines = ["import sys", "sys.path.insert(0, '/verif')", "from pyvc.replay_lib import model_array, run_array_case",
+                 f"model = {m!r}", f"arrays = {{'x': model_array(model, 'x', {nd})}}",
+                 f"build = lambda xp, a: __import__('cubed.core.ops', fromlist=['_rechunk'])._rechunk(a['x'], {copy!r}, {tgt!r}, allow_irregular=False)",
+                 "reference = lambda np, a: a['x']", "reproduced, detail = run_array_case(build, reference, arrays)"]
+        return "\n".join(lines) + "\n"
+
 
 @register
 class MergeChunks(CopyOpSpec):
@@ -234,6 +245,16 @@ class MergeChunks(CopyOpSpec):
     def declines(self, c, a, k, e):
         x, ch = a
         return c.Or(*[_not_multiple(m, xc) for m, xc in zip(ch, x.chunksize)])
+
+    def replay(self, cfg, model, ob):
+        nd = cfg["ndim"]
+        m = dict(model)
+        ch = tuple(max(1, int(m.get(f"m{i}", 1))) for i in range(nd))
+        lines = ["import sys", "sys.path.insert(0, '/verif')", "from pyvc.replay_lib import model_array, run_array_case",
+                 f"model = {m!r}", f"arrays = {{'x': model_array(model, 'x', {nd})}}",
+                 f"build = lambda xp, a: __import__('cubed.core.ops', fromlist=['merge_chunks']).merge_chunks(a['x'], {ch!r})",
+                 "reference = lambda np, a: a['x']", "reproduced, detail = run_array_case(build, reference, arrays)"]
+        return "\n".join(lines) + "\n"
 
 
 def _not_multiple(m, xc):
